@@ -48,7 +48,11 @@ def _tasks(ctx: common.Ctx, n_bundles: int, n_corpus: int) -> Iterator[dict[str,
         # dataclass_transform inputs of stubgen.test decorate with functions that do not transform anything at run
         # time, so stub and runtime disagree by construction of the input: not usable for the stubtest oracle
         cases = [c for c in corpus.load(["stubgen.test"]) if not c.files and c.main.strip() and not c.cmd
-                 and "dataclass_transform" not in c.main]
+                 and "dataclass_transform" not in c.main
+                 # definitions under `if MYPY:` / `if TYPE_CHECKING:` exist only for the type checker: stub and
+                 # runtime differ by intention of the input
+                 and "MYPY" not in c.main
+                 and not re.search(r"if (?:\w+\.)?TYPE_CHECKING:\n\s+(?:def |class |\w+\s*[:=])", c.main)]
         import random
         random.Random("C19-corpus").shuffle(cases)   # the same selection for every seed
         cases = cases[:n_corpus]
@@ -253,6 +257,10 @@ class Evaluator:
                         continue
                     kind = M.coarse_kind(smodel.describe(e["path"]).replace("conditional-", ""))
                     last = e["path"][-1] if e["path"] else ""
+                    if len(e["path"]) == 1 and e["msg"].strip() == "is not present at runtime" and last in smodel.top.vars \
+                            and all(v.ann is not None and v.value is None for v in smodel.top.vars[last]):
+                        ctx.cell("guard:declared-only-variable-has-no-runtime-object")
+                        continue  # `x: T` without a value: the source itself declares what does not exist at run time
                     if last.startswith("__") and last.endswith("__"):
                         if last in ("__lt__", "__le__", "__gt__", "__ge__"):
                             last = "__<ordering>__"
@@ -267,8 +275,10 @@ class Evaluator:
                             kind = "private-name-listed-in-__all__"
                         elif kind == "imported-name":
                             kind = "imported-name" + ("-listed-in-__all__" if in_all else "")
+                    if e["msg"].strip() == "is not a recognised type alias":
+                        kind = "alias"
                     key = f"stubtest:inspect:{M.norm_msg(e['msg'])}" if mode == "insp" else f"stubtest:{MODE_NAME[mode]}:{kind}:{M.norm_msg(e['msg'])}"
-                    if kind == "pep695-alias" and mode != "insp":
+                    if kind.endswith("pep695-alias") and mode != "insp":
                         key = f"stubtest:{MODE_NAME[mode]}:pep695-alias:runtime TypeAliasType object is not understood"
                     once(key,
                          "stubtest reports a disagreement between the generated stub and the imported module",
@@ -288,7 +298,7 @@ class Evaluator:
                 once(it.key(MODE_NAME[mode], mode == "insp"),
                      "a public definition of the source is missing from the stub or its signature/annotation differs",
                      {"object": it.path, "detail": it.detail, "runtime_all": rt_all})
-            if not keys_here:
+            if not keys_here and len(defs) >= 8:
                 ctx.sample({"module": m, "mode": mode, "flags": a["flags"], "style": a["style"], "public_defs": len(defs),
                             "kinds": sorted(set(defs.values())), "stub_lines": len(stub.splitlines()),
                             "oracles": ["a", "b"] + (["c"] if m in st_covered else []) + ["d"], "verdict": "all silent"})
@@ -311,6 +321,11 @@ def run(ctx: common.Ctx) -> None:
         "aliases), and annotation equality only where the source spelled an annotation",
         "watchdog 300 s per tool run; a timeout is inconclusive",
     ]
+    only_stream = os.environ.get("VERIF_C19_STREAM")   # triage aid: "generated" | "corpus"
+    if only_stream == "corpus":
+        n_bundles = 0
+    elif only_stream == "generated":
+        n_corpus = 0
     ev = Evaluator(ctx)
     with common.workdir("C19") as wd:
         with Pool(env=common.base_env(VERIF_POOL_ROOT=wd)) as pool:
